@@ -376,6 +376,17 @@ func (p *c04Pair) filler(i int) *transaction.Transaction {
 	return p.a.newTx(p.a.env.entryScript(n), 5_0000_0000)
 }
 
+func c04Short(s string) string {
+	if i := strings.Index(s, "Error:"); i >= 0 {
+		s = s[i:]
+	}
+	s = strings.Join(strings.Fields(s), " ")
+	if len(s) > 300 {
+		s = s[:300]
+	}
+	return s
+}
+
 func c04Coq3(kvs []c04KV) string {
 	xs := make([]string, len(kvs))
 	for i, kv := range kvs {
@@ -435,8 +446,7 @@ func (p *c04Pair) runCase(co *caseOut, in c04Input) {
 	}
 	blockA := append(append(append([]*transaction.Transaction{}, before...), tx), after...)
 	if err := p.a.addBlock(blockA...); err != nil {
-		co.violation(kind, "block with the case transaction was not accepted / panicked: "+err.Error(), in, nil)
-		panic("c04: chain A refused a block: " + err.Error())
+		panic("chain A refused the block with the case transaction: " + c04Short(err.Error()))
 	}
 	aer := p.a.e.GetTxExecResult(p.a.t, tx.Hash())
 	impl := c04Impl{Halt: aer.VMState == vmstate.Halt, Fault: aer.FaultException, Post: p.a.observe(), Events: p.a.decodeEvents(aer.Events)}
@@ -453,8 +463,7 @@ func (p *c04Pair) runCase(co *caseOut, in c04Input) {
 	}
 	blockB := append(append(append([]*transaction.Transaction{}, before...), txB), after...)
 	if err := p.b.addBlock(blockB...); err != nil {
-		co.violation(kind, "replica refused the block: "+err.Error(), in, impl)
-		panic("c04: chain B refused a block: " + err.Error())
+		panic("replica B refused the block: " + c04Short(err.Error()))
 	}
 	// ---- direct checks ----
 	if ra, rb := p.a.stateRoot(), p.b.stateRoot(); ra != rb {
@@ -563,7 +572,11 @@ func runC04(args []string) error {
 	fresh()
 	defer func() { p.close() }()
 	ncase := 0
+	broken := false
 	runOps := func(ops []*c04Node) {
+		if broken {
+			return
+		}
 		// the in-memory store scans all of its keys on every Seek: start over on fresh chains now and then
 		if ncase++; ncase%400 == 0 {
 			fresh()
@@ -581,7 +594,9 @@ func runC04(args []string) error {
 		}
 		if need {
 			if err := p.setup(cur, top); err != nil {
-				panic(err)
+				broken = true
+				co.violation("tree", "set-up transaction could not be applied: "+err.Error(), c04Input{Pre: cur, Ops: ops}, nil)
+				return
 			}
 			cur = p.a.observe()
 		}
@@ -592,9 +607,53 @@ func runC04(args []string) error {
 		if r.chance(40) {
 			in.FA = 1 + r.intn(2)
 		}
-		p.runCase(co, in)
+		func() {
+			defer func() {
+				if x := recover(); x != nil && !broken {
+					// the chains can no longer be driven (a replica refused a block, a set-up transaction failed ...):
+					// report with this case as replay and stop; what was recorded before stays
+					broken = true
+					kind, _ := c04Class(c04SeqOf(in.Ops))
+					co.violation(kind, fmt.Sprintf("the replica chains could not be driven further: %v", x), in, nil)
+				}
+			}()
+			p.runCase(co, in)
+		}()
 	}
 	n := cf.n
+	// 0. call-flag lattice: for each of the 16 requested flag sets, a callee that does exactly what its flags allow
+	//    (notify / put / both / nothing) and then returns or throws, caught by the caller inside or outside a try body
+	for f := 0; f < 16; f++ {
+		for _, fails := range []bool{true, false} {
+			for _, inTry := range []bool{true, false} {
+				var body []*c04Node
+				if f&8 != 0 {
+					body = append(body, &c04Node{Op: "notify", V: f % 10})
+				}
+				if f&3 == 3 {
+					body = append(body, &c04Node{Op: "put", K: f % c04NKeys, V: 1 + r.intn(9)})
+				}
+				if f&9 == 9 && r.bool() {
+					body = append(body, &c04Node{Op: "notifyval", K: f % c04NKeys})
+				}
+				if f&5 == 5 && r.bool() { // a nested call with all flags requested: effective flags stay f
+					body = append(body, &c04Node{Op: "call", C: r.intn(c04NContracts), Flags: 15, Body: &c04Node{Op: "skip"}})
+				}
+				if fails {
+					body = append(body, &c04Node{Op: "throw"})
+				}
+				callee := &c04Node{Op: "call", C: 1 + r.intn(2), Flags: f, Body: c04SeqOf(body)}
+				var inner *c04Node
+				if inTry {
+					inner = &c04Node{Op: "try", Body: callee, Catch: &c04Node{Op: "notify", V: 9}}
+				} else {
+					inner = callee
+				}
+				a := &c04Node{Op: "call", C: 0, Flags: 15, Body: c04SeqOf([]*c04Node{{Op: "notify", V: 1}, {Op: "put", K: 0, V: 1 + r.intn(9)}, inner, {Op: "notifyval", K: 0}})}
+				runOps([]*c04Node{{Op: "try", Body: a, Catch: &c04Node{Op: "skip"}}})
+			}
+		}
+	}
 	// 1. systematic injection into fault-free base trees
 	nbase := max(1, n/60)
 	for b := 0; b < nbase; b++ {
